@@ -378,6 +378,29 @@ def triage(ctx: Ctx, w: Write, kind: str, why: str, schema: Schema):
             # x.attr = y.attr : copies the wrapper's value of the same name onto the wrapped statement; the name is
             # not a child of the statement classes (invisible to to_etree and to equality of declared children)
             return True, "convenience annotation outside parse/convert/write: idempotent copy of the wrapper's like-named value"
+    # 9a. the same annotation spelled setattr(x, n, getattr(y, n)) in a loop over a constant table of names that no
+    #     model class declares as a child
+    if kind == "self" and ctx.ci is not None and schema.is_aggregate(ctx.ci) and w.kind == "call:setattr" and isinstance(w.node, ast.Call) and len(w.node.args) == 3:
+        fn = ctx.fn
+        is_prop = any(isinstance(d, ast.Name) and d.id == "property" for d in fn.decorator_list)
+        nm_, val_ = w.node.args[1], w.node.args[2]
+        same_name = isinstance(val_, ast.Call) and isinstance(val_.func, ast.Name) and val_.func.id == "getattr" and len(val_.args) == 2 and text(val_.args[1]) == text(nm_)
+        lp_ = parent(w.stmt)
+        while lp_ is not None and not isinstance(lp_, (ast.For, ast.FunctionDef)):
+            lp_ = parent(lp_)
+        names_ = None
+        if isinstance(lp_, ast.For) and isinstance(lp_.target, ast.Name) and isinstance(nm_, ast.Name) and nm_.id == lp_.target.id:
+            from .fold import fold
+
+            v_ = fold(lp_.iter, {}, p, mod)
+            if isinstance(v_, (tuple, list)) and v_ and all(isinstance(x, str) for x in v_):
+                names_ = list(v_)
+        elif isinstance(nm_, ast.Constant) and isinstance(nm_.value, str):
+            names_ = [nm_.value]
+        if is_prop and same_name and names_ is not None:
+            declared = [n_ for n_ in names_ if any(n_ in schema.spec(c) for c in schema.exported().values() if c.name.endswith(("STMTRS", "STMTENDRS")))]
+            if not declared:
+                return True, f"convenience annotation outside parse/convert/write: idempotent copy of the wrapper's like-named values {names_}"
     # 9b. the same annotation moved into a private module-level helper that only such shortcut properties call
     if kind == "param" and ctx.ci is None and qn.startswith("_") and "." not in qn and w.kind == "attr" and isinstance(w.target, ast.Attribute) \
             and isinstance(w.stmt, ast.Assign) and isinstance(w.stmt.value, ast.Attribute) and w.stmt.value.attr == w.target.attr \
